@@ -22,8 +22,9 @@ EXTENDS PaneErrors
 
 CNode(c, kids) == [c |-> c, kids |-> kids]
 CLeaf(c) == CNode(c, <<>>)
-ScalarConv(k) ==      \* the converter of an interchange scalar kind (as it appears among enum member values)
-  IF k = "none" THEN CLeaf("NoneConverter") ELSE CLeaf("ScalarConverter")
+ScalarConv(k) ==      \* the converter of the type of an enum member value (a scalar, or a tuple: sequence of anything)
+  IF k = "none" THEN CLeaf("NoneConverter")
+  ELSE IF k = "seq" THEN CNode("SequenceConverter", <<CLeaf("AnyConverter")>>) ELSE CLeaf("ScalarConverter")
 
 DedupKinds(s) == LET d == Dedup(s) IN [i \in DOMAIN d |-> d[i].x]
 RECURSIVE Conv(_), StripAnn(_)
